@@ -61,8 +61,8 @@ pub struct Case {
 
 pub struct C16;
 
-const NAMES: &[&str] = &["accept", "user-agent", "accept-encoding", "x-a", "X-A", "x-b"];
-const VALUES: &[&str] = &["v1", "v2", "text/html", "", "gzip", "agent/1.0"];
+const NAMES: &[&str] = &["accept", "user-agent", "accept-encoding", "x-a", "X-A", "x-b", "connection"];
+const VALUES: &[&str] = &["v1", "v2", "text/html", "", "gzip", "agent/1.0", "keep-alive"];
 const MAX_HEADERS: &[usize] = &[1, 3, 100];
 const MAX_REDIR: &[u32] = &[0, 1, 5];
 const METHODS: &[&str] = &["GET", "POST", "PUT", "DELETE", "HEAD", "OPTIONS", "PATCH", "TRACE"];
